@@ -241,7 +241,7 @@ fn main() {
         ctx.finish();
     }
     let mut cases: Vec<Case> = Vec::new();
-    let versions: Vec<bool> = if ctx.thorough() { vec![false, true] } else { vec![false] };
+    let versions: Vec<bool> = vec![false, true]; // both protocol versions in both tiers (cheap)
     let mut totals = Vec::new();
     for &v1 in &versions {
         for header in [Header::None, Header::Garbage, Header::Unverifiable] {
